@@ -2002,6 +2002,11 @@ def dask_groupby_agg(
             # find number of groups in each chunk, this is needed for output chunks
             # along the reduced axis
             # TODO: this logic is very specialized for the resampling case
+            if is_duck_dask_array(by_input):
+                raise NotImplementedError(
+                    "method='blockwise' with reindex=False requires in-memory group labels; "
+                    "pass expected_groups and leave reindex unset when grouping by a dask array."
+                )
             slices = slices_from_chunks(tuple(array.chunks[ax] for ax in axis))
             # must match the order in which chunk_reduce emits the groups of a block
             groups_in_block = tuple(
@@ -2869,6 +2874,12 @@ def groupby_reduce(
                 "arg-reductions are not supported with method='blockwise', use 'cohorts' instead."
             )
 
+        if method == "blockwise" and any_by_dask and not all(nchunks == 1 for nchunks in array.numblocks[-nax:]):
+            raise NotImplementedError(
+                "method='blockwise' with dask group labels is only supported for a single block along "
+                "the reduced axes: which groups a block holds is not known when the graph is built."
+            )
+
         if nax != by_.ndim and method in ["blockwise", "cohorts"]:
             raise NotImplementedError(
                 "Must reduce along all dimensions of `by` when method != 'map-reduce'."
@@ -2907,7 +2918,12 @@ def groupby_reduce(
         partial_agg = partial(dask_groupby_agg, **kwargs)
 
         # if preferred method is already blockwise, no need to rechunk
-        if preferred_method != "blockwise" and method == "blockwise" and by_.ndim == 1:
+        if (
+            preferred_method != "blockwise"
+            and method == "blockwise"
+            and by_.ndim == 1
+            and not is_duck_dask_array(by_)
+        ):
             array = rechunk_for_blockwise(array, axis=-1, labels=by_)
 
         result, groups = partial_agg(
